@@ -33,6 +33,7 @@ import PyomaVerif.Ops.C07Rect
 import PyomaVerif.Ops.MultiSetup
 import PyomaVerif.Ops.C15X
 import PyomaVerif.Ops.SsiArgs
+import PyomaVerif.Ops.GeoFile
 /-! Line-protocol driver: one JSON object per line in, one JSON value per line out. -/
 open Lean PV PV.Codec
 
@@ -53,6 +54,7 @@ def allOps : List (String × (Json → Except String Json)) :=
   ++ PV.Ops.MultiSetup.ops
   ++ PV.Ops.C15X.ops
   ++ PV.Ops.SsiArgs.ops
+  ++ PV.Ops.GeoFile.ops
 
 def handle (line : String) : String :=
   match Json.parse line with
